@@ -378,3 +378,35 @@ pub fn bounds(tier: &str) -> Value {
 
 #[allow(dead_code)]
 fn _seg(_: &Seg) {}
+
+/// A representative SourceMapSource with inner map (used by other pools).
+pub fn example_combined() -> Term {
+  let om = {
+    let mut m = MapSpec::new(
+      vec![
+        Seg { gl: 1, gc: 0, orig: Some((0, 1, 1, Some(0))) },
+        Seg { gl: 1, gc: 2, orig: Some((1, 1, 0, None)) },
+        Seg { gl: 2, gc: 0, orig: Some((0, 2, 0, None)) },
+      ],
+      &[INNER_NAME, "o1"],
+      None,
+      &["ab", "zz"],
+    );
+    m.contents = Some(vec![String::new(), "content of o1\nl2".into()]);
+    m
+  };
+  let im = MapSpec::new(
+    vec![Seg { gl: 1, gc: 0, orig: Some((0, 1, 0, Some(0))) }, Seg { gl: 2, gc: 0, orig: Some((1, 2, 0, None)) }],
+    &["x0", "x1"],
+    Some(&["ab\ncd", "xy\nab"]),
+    &["in0"],
+  );
+  Term::Sms(Box::new(SmsSpec {
+    value: "abc\nd".into(),
+    name: INNER_NAME.into(),
+    map: om,
+    original_source: Some("ab\nc".into()),
+    inner: Some(im),
+    remove: false,
+  }))
+}
